@@ -35,4 +35,25 @@ def absSigma (gases : List (Gas α)) (req : List α) : Nat → Nat → α :=
 
 end
 
+/-! The other two contributions whose weighted opacity is "cross-section of the species x its abundance in the layer"
+    (C01: the cross-section entering the optical depth of a layer is weighted with the abundance IN THAT LAYER — a species
+    that vanishes in some layers still acts in the others):
+      taurex/contributions/rayleigh.py: prepare_each / Contribution.prepare   — `scaledSigma`
+      taurex/contributions/cia.py: prepare_each / Contribution.prepare        — `ciaSigma`
+    The per-molecule Rayleigh laws (a function of the wavenumber) and the per-pair CIA cross-sections at the layer's
+    temperature are inputs. -/
+section
+variable {α : Type} [Add α] [Mul α] [OfNat α 0]
+
+/-- `RayleighContribution`: the sum over the molecules of the atmosphere that have a Rayleigh law of
+    `law[None, :] * mix[:, None]` (a molecule whose abundance is zero in EVERY layer is skipped by the code: it adds zero) -/
+def scaledSigma (gases : List ((Nat → α) × (Nat → α))) : Nat → Nat → α :=
+  sumComps (gases.map fun g => compScaled g.1 g.2)
+
+/-- `CIAContribution`: the sum over the pairs of `cia(T_l)[wn] * (mix_one[l] * mix_two[l])` -/
+def ciaSigma (pairs : List ((Nat → Nat → α) × (Nat → α) × (Nat → α))) : Nat → Nat → α :=
+  sumComps (pairs.map fun p => compCIA p.1 p.2.1 p.2.2)
+
+end
+
 end Taurex.AbsorptionGrid
